@@ -172,8 +172,8 @@ static std::string c02Once(const Instance& I, const ParamSet& cfg, int loadMode,
             set(std::string("verdict.") + statusName(st) + "-on-optimal", std::string(statusName(st)) + " returned but the LP has the certified finite optimum " + ds(dq(I.T.objval)));
          if(st == SPX::OPTIMAL && I.T.status != REF_OPTIMAL)
             set(std::string("verdict.OPTIMAL-on-") + tn, std::string("OPTIMAL returned but certified truth is ") + tn);
-         if(st == SPX::UNBOUNDED && I.T.status == REF_INFEASIBLE)
-            set("verdict.UNBOUNDED-on-infeasible", "UNBOUNDED returned but the LP is certified infeasible");
+         // (UNBOUNDED on an infeasible LP is wrong too, but the property text does not forbid it: it is only counted)
+         if(st == SPX::UNBOUNDED && I.T.status == REF_INFEASIBLE && count) S.count("c02.note.UNBOUNDED_on_infeasible");
       }
    }
    int m = sp.numRows(), n = sp.numCols();
@@ -249,7 +249,7 @@ static void caseC02(long long k, Rng& g)
 {
    Sink& S = sink();
    static std::vector<ParamSet> pw = pairwiseConfigs(cli.seed + 1);
-   static const std::vector<std::string> fams = {"planted-infeasible", "planted-unbounded", "planted-both", "planted-opt", "arbitrary", "planted-infeasible", "planted-unbounded", "arbitrary", "presolve-rich", "badly-scaled"};
+   static const std::vector<std::string> fams = {"planted-infeasible", "planted-unbounded", "planted-both", "planted-opt", "arbitrary", "planted-infeasible", "planted-unbounded", "arbitrary", "presolve-rich", "degenerate"};
    std::string fam = fams[(size_t)(k % (long long)fams.size())];
    int big = g.range(0, 19);
    int mx = big == 0 ? 30 : big <= 3 ? 16 : 9;
